@@ -17,7 +17,7 @@ import traceback
 import warnings
 
 warnings.filterwarnings("ignore")
-sys.setrecursionlimit(20000)
+sys.setrecursionlimit(6000)
 
 
 def _load(path):
